@@ -29,14 +29,49 @@ impl<'a> RefSearch<'a> {
         RefSearch { eval, history: Vec::new(), repetition: None, nodes: 0 }
     }
 
-    pub fn quiesce(&mut self, p: &Pos) -> i32 {
+    /// exhaustive capture/promotion resolution with stand-pat — plain minimax (used by the
+    /// self-test to validate `quiesce`)
+    pub fn quiesce_plain(&mut self, p: &Pos) -> i32 {
         self.nodes += 1;
         let mut best = (self.eval)(p, true);
         for m in p.legal() {
             if m.is_capture() || m.promo != 0 {
-                let v = -self.quiesce(&p.make(&m));
+                let v = -self.quiesce_plain(&p.make(&m));
                 if v > best {
                     best = v;
+                }
+            }
+        }
+        best
+    }
+
+    /// same value as `quiesce_plain`, computed with fail-soft alpha-beta on a full window (an
+    /// exact method; needed because unpruned capture trees of middlegame positions explode)
+    pub fn quiesce(&mut self, p: &Pos) -> i32 {
+        self.quiesce_ab(p, -i32::MAX, i32::MAX)
+    }
+
+    fn quiesce_ab(&mut self, p: &Pos, mut alpha: i32, beta: i32) -> i32 {
+        self.nodes += 1;
+        let mut best = (self.eval)(p, true);
+        if best >= beta {
+            return best;
+        }
+        if best > alpha {
+            alpha = best;
+        }
+        let mut moves: Vec<Mv> = p.legal().into_iter().filter(|m| m.is_capture() || m.promo != 0).collect();
+        // most valuable victim first: pure ordering, no effect on the value
+        moves.sort_by_key(|m| (-(m.captured as i32) * 16 + m.piece as i32, m.from, m.to, m.promo));
+        for m in moves {
+            let v = -self.quiesce_ab(&p.make(&m), -beta, -alpha);
+            if v > best {
+                best = v;
+                if v > alpha {
+                    alpha = v;
+                }
+                if alpha >= beta {
+                    break;
                 }
             }
         }
@@ -91,6 +126,49 @@ impl<'a> RefSearch<'a> {
             }
         }
         best
+    }
+
+    /// same value as `negamax` (repetition rule off), computed with fail-soft alpha-beta: exact on a
+    /// full window. Used where the plain tree is too large; equality with `negamax` is part of the
+    /// self-test and of the thorough runs.
+    pub fn negamax_ab(&mut self, p: &Pos, ply: usize, depth: usize, mut alpha: i32, beta: i32) -> i32 {
+        self.nodes += 1;
+        let moves = p.legal();
+        if moves.is_empty() {
+            return (self.eval)(p, false);
+        }
+        if ply == depth {
+            return self.quiesce_ab(p, alpha, beta);
+        }
+        let mut best = -i32::MAX;
+        for m in moves {
+            let v = -self.negamax_ab(&p.make(&m), ply + 1, depth, -beta, -alpha);
+            if v > best {
+                best = v;
+                if v > alpha {
+                    alpha = v;
+                }
+                if alpha >= beta {
+                    break;
+                }
+            }
+        }
+        best
+    }
+
+    /// root values of every legal move with the alpha-beta reference (each child on a full window,
+    /// so every listed value is exact)
+    pub fn root_ab(&mut self, root: &Pos, depth: usize) -> (i32, Vec<(Mv, i32)>) {
+        let mut out = Vec::new();
+        let mut best = -i32::MAX;
+        for m in root.legal() {
+            let v = -self.negamax_ab(&root.make(&m), 1, depth, -i32::MAX, i32::MAX);
+            out.push((m, v));
+            if v > best {
+                best = v;
+            }
+        }
+        (best, out)
     }
 
     /// root search: returns (value, for every legal root move its value)
